@@ -38,6 +38,10 @@ TREE = {
     "src/e.c": "#include <cx.h>\ncbi_m_e_2;\n#ifdef CX_BUILD\ncbi_m_e_4;\n#endif\n#ifdef CX_ROOT\ncbi_m_e_7;\n#endif\n",
     "incx/cx.h": "#define CX_ROOT 1\ncbi_m_cxr_2;\n",
     "build/incx/cx.h": "#define CX_BUILD 1\ncbi_m_cxb_2;\n",
+    # a quote include that no directory of the command satisfies (the header is generated at build time), while a file
+    # of that name lies in the analysis root -- which is neither the includer's directory nor on the search path
+    "src/f.c": '#include "gencfg.h"\ncbi_m_f_2;\n#ifdef LEGACY\ncbi_m_f_4;\n#endif\n',
+    "gencfg.h": "#define LEGACY 1\ncbi_m_rootcfg_2;\n",
     "src/pre2.h": "#define PRE2_SRC 1\ncbi_m_p2s_2;\n",
     "inc/pre2.h": "#define PRE2_INC 1\ncbi_m_p2i_2;\n",
     # needs a search directory whose name contains a blank; tests the macro of a forced include
@@ -76,7 +80,7 @@ def required_cells(tier):
     cells += ["wd:root", "wd:build-inside", "wd:build-outside", "skip:missing/first", "skip:missing/middle", "skip:missing/last",
               "skip:object", "skip:link", "skip:empty-command", "skip:empty-arguments", "skip:blank-command", "relative-I-missing-in-build-dir", "unnamed-file-unattributed",
               "gcc-confirmed", "class:grid", "class:random", "same-spelling-different-build-dirs", "same-file-spelling-missing-in-one-directory", "forced-include-by-name:search-path-not-source-directory", "relative-I-also-exists-below-process-cwd:cwd=root",
-              "relative-I-also-exists-below-process-cwd:cwd=build", "directory-is-file-system-root", "dotdot-after-directory-link:file", "dotdot-after-directory-link:inc",
+              "relative-I-also-exists-below-process-cwd:cwd=build", "directory-is-file-system-root", "unresolvable-quote-include-with-same-named-file-in-root", "dotdot-after-directory-link:file", "dotdot-after-directory-link:inc",
               "dotdot-after-directory-link:dir", "dotdot-after-directory-link:pre", "dotdot-after-directory-link:all", "forced-include:rel",
               "forced-include:abs", "forced-include:dots", "search-dir-with-blank:command", "search-dir-with-blank:arguments",
               "header-compiled-on-its-own", "compiled-files-excluded-by-pattern", "skip:missing-long-name", "skip:missing-below-a-file",
@@ -519,6 +523,40 @@ def run_shard(ctx):
                  "want_inc": [os.path.join(root, "inc"), os.path.join(root, "inc2")], "pre": None}
             ctx.acc.cells["directory-is-file-system-root"] += 1
             check_db(ctx, base, root, [e], [m], [], "grid")
+    # unresolvable quote include with a same-named file in the root (gcc stops with an error, so the expectation is by
+    # construction: nothing but the source file's unconditional lines is attributed)
+    for wd_kind, form in itertools.product(["root", "build-inside", "build-outside"], ["arguments", "command"]):
+        idx += 1
+        if not ctx.mine(idx):
+            continue
+        from codebasin import config
+        wd = {"root": root, "build-inside": os.path.join(root, "build"), "build-outside": os.path.join(base, "outbuild")}[wd_kind]
+        srcp = os.path.join(root, "src", "f.c")
+        argv = ["gcc", "-I", os.path.relpath(os.path.join(root, "gen-not-there"), wd), "-c", os.path.relpath(srcp, wd)]
+        e = {"file": os.path.relpath(srcp, wd), "directory": wd}
+        if form == "arguments":
+            e["arguments"] = argv
+        else:
+            import shlex
+            e["command"] = shlex.join(argv)
+        dbp = os.path.join(base, "compile_commands.json")
+        with open(dbp, "w") as f:
+            json.dump([e], f)
+        problems = []
+        try:
+            conf = config.load_database(dbp, root)
+            state, _ = cbi.run_find(root, {"p": conf})
+            ml = marker_lines(root)
+            used = {mk for mk, (rel, ln) in ml.items() if state.get_tree(os.path.join(root, rel)) is not None and ln in cbi.used_lines(state, os.path.join(root, rel), "p")}
+            if used != {"cbi_m_f_2"}:
+                problems.append({"kind": "attribution with an unresolvable quote include and a same-named file in the root", "expected": ["cbi_m_f_2"], "observed": sorted(used)})
+        except Exception as ex:
+            problems.append({"kind": "exception", "observed": f"{type(ex).__name__}: {ex}"})
+        cells = ["unresolvable-quote-include-with-same-named-file-in-root", "class:grid"]
+        if problems:
+            ctx.acc.violated({"input": {"entries": [e]}, "witness": {"entries": [e], "problems": problems}}, cells=cells, cls="grid")
+        else:
+            ctx.acc.held(cells=cells, cls="grid", nontrivial=[e])
     # one `file` spelling in two build directories: missing in the first (generated later), present in the second.
     # The warning about the first must not cost the second its place in the configuration (either order, twice each).
     for order in (0, 1, 2):
